@@ -640,6 +640,7 @@ func (ex *Exec) applyContract(spec *FuncSpec, info calleeInfo, c *ssa.CallCommon
 				}
 				g := ex.evalSpec(cl.Expr, aenv)
 				ex.oblige("assert:"+shortKey(info.key), ex.tagsOf(cl), g.T, pos, cl.Text)
+				ex.assumeHere(g.T) // proved just above: available from here on
 			}
 		}
 	}
